@@ -169,7 +169,7 @@ def run(st, tier, seed):
     res.rule = ("accepted programs x {pil, des} x configurations (hash seed, 0-4 earlier compiles in the process, invocation directory); "
                 "non-trivial = program with an anonymous region; distinct by (source, configuration)")
     rng = core.rng_for(seed, "c18")
-    n = 12 if tier == "quick" else 120
+    n = 16 if tier == "quick" else 128
     nconf = 4 if tier == "quick" else 12
     drv = core.Driver() if st.driver_ok else None
     reqs, meta = [], []
@@ -180,7 +180,7 @@ def run(st, tier, seed):
         # earlier compiles: other projects with the SAME relative file names (top.comp, tmpl0.comp, lib/..., sys*.sys)
         hist = [(progen.gen_system_bundle(rng, depth=rng.randint(1, 2), size=3, n_templates=2) if rng.random() < 0.5 else None)
                 or progen.gen_component_bundle(rng, size=4) for _ in range(4)]
-        if i % 4 == 0:
+        if i % 8 == 0:
             b = directed_duplicate(rng)
             res.count("directed:duplicate-template-in-two-include-dirs")
             # the project compiled before it in the same process has a Gate.comp of its own beside its top.sys
@@ -190,19 +190,31 @@ def run(st, tier, seed):
             hb.entry = "top"
             hist[0] = hb
             b.earlier_has_same_template = True
-        elif i % 8 == 2:
+        elif i % 16 == 2:
             b = directed_nested_paths(rng)
             res.count("directed:nested-imports-relative-to-the-importing-file")
-        elif i % 8 == 6:
+        elif i % 16 == 6:
             b = progen.both_orientation_bundle(rng)
             res.count("directed:port-bound-in-both-orientations-in-a-nested-system")
-        elif i % 8 == 1:
+        elif i % 16 == 1:
             b = directed_braces(rng)
             res.count("directed:brace-groups")
-        elif i % 8 == 3:
+        elif i % 16 == 3:
             b = directed_deep_stem(rng)
             res.count("directed:helix-beyond-the-recursion-limit")
-        elif i % 8 == 5:
+        elif i % 16 == 7:
+            # a component WITHOUT parameters that uses a name it never defines (refused, whenever it is compiled), compiled after another
+            # parameterless component of another project that defines that name with a `length` line: still refused
+            nm_ = rng.choice(["w", "stem", "k2"])
+            b = progen.Bundle()
+            b.texts["top.comp"] = 'declare component Top: ->\nsequence a = "<%s>N"\nstrand A = a\nstructure S = A : <%s>.\n' % (nm_, nm_)
+            b.entry = "top"; b.directed = True
+            hb = progen.Bundle()
+            hb.texts["top.comp"] = 'declare component Other: ->\nlength %s = %d\nsequence a = "<%s>N"\nstrand A = a\nstructure S = A : <%s>.\n' % (nm_, rng.randint(3, 9), nm_, nm_)
+            hb.entry = "top"
+            hist[0] = hb; hist[1] = hb
+            res.count("directed:undefined-name-defined-by-an-earlier-component")
+        elif i % 16 == 5:
             b = directed_anon_rows(rng)
             res.count("directed:several-anonymous-regions-per-statement")
         if b is None:
